@@ -165,3 +165,53 @@ PROPS["C13"] = {
     "compare_model": c13_compare_model,
     "nontrivial": lambda il, meta: any(l.startswith("E ") for l in il) and "plan-len=1" != meta.get("note"),
 }
+
+
+# ---------------------------------------------------------------- C01 / C02
+def spec_valid_flag(sl):
+    for l in sl:
+        if l.startswith("VALID "):
+            return l.split()[1] == "1"
+    return None
+
+
+def spec_any_violation(sl):
+    """some implemented rule is violated (only rules whose verdict is in scope count)"""
+    return any(l.startswith("V ") and l.split()[2] == "1" for l in sl)
+
+
+def c01_compare_spec(il, sl, meta, exempt):
+    v = spec_valid_flag(sl)
+    if v is None:
+        return None
+    if not v:
+        exempt["not-spec-valid"] = exempt.get("not-spec-valid", 0) + 1
+        return None
+    return il == ["OK"]
+
+
+def c02_compare_spec(il, sl, meta, exempt):
+    if not spec_any_violation(sl):
+        exempt["spec-valid"] = exempt.get("spec-valid", 0) + 1
+        return None
+    return bool(il) and il[0] == "OK" and any(l.startswith("E ") for l in il)
+
+
+def verdict_compare_model(il, ml, meta):
+    if not il or not ml or il[0] != ml[0]:
+        return False
+    return set(fired(il)) == set(fired(ml))
+
+
+PROPS["C01"] = {
+    "rule": "type-directed valid-by-construction documents (all three operation kinds, aliases, arguments of every input shape incl. lists / non-null lists / input objects / defaults / custom scalars, variables with and without defaults, directives, inline and named fragments on objects / interfaces / unions) over the curated schema pool, validated with the default plan; the specification oracle decides validity (VALID 1 = no implemented rule's specification predicate is violated): on those the implementation must return no error. Compared with the model: set of reporting rules. distinct = distinct (schema, document); non-trivial = oracle-valid document with at least one argument and one fragment or variable",
+    "compare_model": verdict_compare_model,
+    "compare_spec": c01_compare_spec,
+    "nontrivial": lambda il, meta: il == ["OK"] and "(" in meta.get("doc", "") and ("..." in meta.get("doc", "") or "$" in meta.get("doc", "")),
+}
+PROPS["C02"] = {
+    "rule": "single-violation injection into valid-by-construction documents (30 operators: one per way a rule can be violated, applied at a random depth / placement: directly, behind inline fragments, inside named fragments) plus grammar-random documents, validated with the default plan; whenever the specification oracle flags an implemented rule (in-scope verdict 1) the implementation must return at least one error. Compared with the model: set of reporting rules. distinct = distinct (schema, document); non-trivial = the oracle flags at least one rule",
+    "compare_model": verdict_compare_model,
+    "compare_spec": c02_compare_spec,
+    "nontrivial": lambda il, meta: any(l.startswith("E ") for l in il),
+}
